@@ -19,7 +19,8 @@ from pathlib import Path
 from .core import Inconclusive, SPEC, mkscratch, tlc, run, base_env, log
 
 INVARIANTS = ("NeverHalfWritten Mutex LockHolder POnlyOwnRemoved PTmpClean PSharedAlive PWriteOwn PNoOrphan "
-              "PDepsFirst PLinkLast PFactsComplete PAsmNames POkMeansLinked PLinkUnderGo EndClean")
+              "PDepsFirst PLinkLast PFactsComplete PAsmNames POkMeansLinked PLinkUnderGo EndClean "
+              "PDebugComplete PDebugOwnKey PForcedRebuilt DbgRestoredListed")
 
 
 def tla_str(s: str) -> str:
@@ -74,6 +75,7 @@ class Projection:
         self.dropped = 0
         self.cmds = {}
         self.keys = {}        # (top, pkg) -> GarbleActionID as first logged
+        self.dbg_tops = set() # commands run with -debugdir (they logged debugdir-claimed)
 
 
 def project(events: list, kills: dict | None = None) -> Projection:
@@ -160,7 +162,21 @@ def project(events: list, kills: dict | None = None) -> Projection:
                     P.pkgs.append(p)
                 kid_of_pid[pid] = (t, p, tool)
                 out = {"ev": ev, "t": t, "p": p, "tool": tool}
-        elif ev in ("hash-input", "tool-version") or (ev or "").startswith("debugdir-"):
+        elif ev in ("debugdir-claimed", "debugdir-needs-rebuild", "debugdir-restore") and pid in top_of_pid:
+            t = top_of_pid[pid]
+            out = {"ev": ev, "t": t}
+            if ev == "debugdir-claimed":
+                P.dbg_tops.add(t)
+            elif ev == "debugdir-needs-rebuild":
+                out["needs"] = bool(e.get("needs"))
+            else:
+                if e.get("pkg", "") not in P.pkgs:
+                    # artifacts of listed packages that are not part of this build's tool runs: outside the model's
+                    # package set; restoring them is harmless (they are this command's own keys) - not projected
+                    P.dropped += 1
+                    continue
+                out["p"], out["kind"] = e.get("pkg", ""), e.get("kind", "")
+        elif ev in ("hash-input", "tool-version") or (ev or "").startswith("debugdir-") and pid not in kid_of_pid:
             P.dropped += 1
             continue
         elif pid in kid_of_pid:
@@ -209,6 +225,8 @@ def project(events: list, kills: dict | None = None) -> Projection:
                     out = dict(base, ev=ev)
                     if ev == "asmnames-put":
                         P.named_asm.add(p)
+                elif ev == "debugdir-put":
+                    out = dict(base, ev=ev, kind=e.get("kind", ""))
                 elif ev == "write-source":
                     d = dirpath.get(t, "\0")
                     out = dict(base, ev=ev, inshared=str(e.get("path", "")).startswith(d.rstrip("/") + "/"))
@@ -288,6 +306,8 @@ MCDirName == {tla_fun({t: P.dir_of.get(t, "nodir-" + t) for t in P.tops})}
 MCInherit == {tla_fun({t: inherit.get(t, "none") for t in P.tops})}
 MCInitGo == {pair_set(init_go)}
 MCInitGk == {pair_set(sorted(init_gk))}
+MCDbgTops == {tla_set(P.dbg_tops)}
+MCNoDk == {{}}
 MCLinkerInit == {"{<<" + tla_str(linker_init[0]) + ", " + tla_str(linker_init[1]) + ">>}" if linker_init else "InitAny"}
 ====
 """
@@ -318,6 +338,9 @@ CONSTANTS
   DirName <- MCDirName
   InheritFrom <- MCInherit
   ForgetInherited = TRUE
+  DbgTops <- MCDbgTops
+  InitDk <- MCNoDk
+  ForceAll = TRUE
   ColdGk = {"TRUE" if cold_gk else "FALSE"}
 INVARIANTS {INVARIANTS}
 CONSTRAINT HighWater
